@@ -2534,3 +2534,46 @@ def r12_21(rep):
                       "`%s[%s]`: cannot show %s (needs %s >= 0) from the comparisons on the path: a slice index out of range panics"
                       % (b.canon(x["base"], 2)[-40:], b.canon(idx, 4)[:70], bad[0][0], _fmt_lin(bad[0][1])), b.loc(x))
     rep.need(n >= 5, "index expressions in functions that slice by another value's length")
+
+
+# ---------------------------------------------------------------------------------------------
+# R12.22 / R12.23
+# ---------------------------------------------------------------------------------------------
+@RULES.rule("R12.22", "every character rust_mangle detects in a C name is also replaced (shared with C01 R1.2)", floor=80)
+def r12_22(rep):
+    """clang accepts `$` in identifiers; MSVC decorations contain `@` and `?`.  `rust_mangle` detects the three and must rewrite each of
+    them: a name that still contains one reaches `Ident::new` and panics (`struct point$ { int x$; };` after a seeded change that
+    merged the three `replace` calls and lost the `$`).  Same rule instance as R1.2."""
+    import c01
+    c01.r1_2(rep)
+
+
+@RULES.rule("R12.23", "an Objective-C selector piece always becomes an identifier: plain, raw, and with a `_` suffix are all tried", floor=1)
+def r12_23(rep):
+    """Selector pieces come from the header.  `as` needs the raw form `r#as`; `crate`, `self`, `super`, `Self` and a lone `_` cannot be
+    raw and need the suffix form.  The chain `parse(name).or_else(parse("r#name")).or_else(parse("name_"))` ends in `expect`; without
+    its last step `- (void)moveTo:(int)x _:(int)y;` panics with "Invalid identifier" (seeded change)."""
+    prog = rep.prog
+    n = 0
+    for p, b in sorted(prog.bodies.items()):
+        if not b.file.endswith("ir/objc.rs"):
+            continue
+        for c in b.calls(lambda x: x["k"] == "MCall" and x["name"] in ("expect", "unwrap")):
+            attempts = [y for y in b.walk(c["recv"]) if y["k"] == "Call" and (y.get("callee") or "") == "syn::parse_str" and "Ident" in (y.get("gargs") or "")]
+            if not attempts:
+                # a helper that does the parsing
+                for y in b.walk(c["recv"]):
+                    if y["k"] == "Call" and (y.get("callee") or "") in prog.bodies:
+                        hb = prog.bodies[y["callee"]]
+                        attempts += [z for z in hb.walk() if z["k"] == "Call" and (z.get("callee") or "") == "syn::parse_str" and "Ident" in (z.get("gargs") or "")]
+            if not attempts:
+                continue
+            n += 1
+            lits = [y.get("v") for y in b.walk(c["recv"]) if y["k"] == "Lit" and isinstance(y.get("v"), str)]
+            raw = any("r#" in l for l in lits)
+            suffix = any("_" in l and "r#" not in l for l in lits)
+            ok = len(attempts) >= 3 and raw and suffix
+            rep.check(ok, "selector-piece-fallbacks@%s" % p.split("::")[-1], "%d attempts: plain, `r#name`, `name_`" % len(attempts) if ok else
+                      "only %d attempt(s)%s%s before `%s`: a selector piece that is a keyword which cannot be raw (`_`, `self`, `crate`, ..) "
+                      "panics" % (len(attempts), "" if raw else ", no raw form", "" if suffix else ", no `name_` form", c["name"]), b.loc(c))
+    rep.need(n >= 1, "parse_str::<Ident> chains ending in expect/unwrap in ir/objc.rs")
